@@ -390,8 +390,16 @@ def run_sequences(ctx, res: Result, seqs, label):
         impls.append(impl)
         metas.append(seq)
         if len(res.samples) < 4 and len(seq["steps"]) >= 2 and sum(len(s[1]) for s in impl[1:] if s[0] == "STEP") >= 3 and label != "exhaustive":
-            res.samples.append({"recursive": rec, "start": seq["start"], "steps": seq["steps"],
-                                "events": [[[e[0], bytes.fromhex(e[1]).decode(), e[2] and bytes.fromhex(e[2]).decode()] for e in s[1]] for s in impl[1:]]})
+            def _show(x):
+                try:
+                    return bytes.fromhex(x).decode()
+                except (ValueError, TypeError):
+                    return x
+            try:
+                shown = [[[e[0], _show(e[1]), e[2] and _show(e[2])] for e in s[1]] if s[0] == "STEP" else list(s) for s in impl[1:]]
+            except Exception:      # noqa: BLE001 - a sample is documentation only; never let it break the check
+                shown = [list(s) if isinstance(s, (list, tuple)) else s for s in impl[1:]]
+            res.samples.append({"recursive": rec, "start": seq["start"], "steps": seq["steps"], "events": shown})
         if len(lines) >= 5000:
             flush_polls(res, lines, impls, metas)
     flush_polls(res, lines, impls, metas)
